@@ -9,6 +9,38 @@ ENGINE_NOTE = ("Lean kernel; axioms propext/Classical.choice/Quot.sound; the eng
                "Lean driver and an independent naive least-model oracle; rustc, syn/quote, hash maps (C19), petgraph (validated by validOrder) and the "
                "evaluation of embedded Rust expressions (theorems hold for every interpretation) are modelled, not verified.")
 CLAIMS = {
+ "C07": dict(
+   engine="tie-B-engine",
+   technique="Lean 4 proof that the implemented desugaring pipeline preserves the documented meaning of every sugar form + three-way compiled-program "
+             "correspondence (sugared text / printed documented expansion / Lean desugar+engine model) + in-process acceptance sweep (tie A)",
+   text="Lean 4 theorems for every interpretation of the embedded Rust fragments: a surface body means the union over one disjunct per disjunction at any "
+        "nesting (products_correct); the pipeline pattern-args -> wildcards -> negation -> repeated-vars with its gensyms has exactly the documented one-step "
+        "consequences (desugar_correct, desugarRules_correct) hence the same least model (derivable_desugar), for rules that mention no generated name and whose "
+        "expression arguments refer to earlier columns (NoReservedNames, WellScoped; instances stdOps_sugarSound / stdOps_varsSound); several heads = one rule per "
+        "head, no body = fact (cons_split_heads, consS_fact). Tie: every generated surface program (every sugar form and nesting forced by quota) is compiled twice "
+        "with the real macros - sugared text and printed documented expansion - and run on the same inputs; both must equal the naive least model of the expansion "
+        "and the Lean desugar+engine model (driver op `eng sprog`); 150/1500 more programs through the in-process pipeline. F10 (typeable gensym `x_` captures a user "
+        "variable) is a kernel-checked witness of why NoReservedNames is needed; F9 (a lattice clause with every column bound reads an index head updates skip) is a "
+        "known finding of the generated code below the desugaring, predicted by a Python bug model.",
+   design_ref="DESIGN.md §8 C07",
+   note=ENGINE_NOTE + " expand_spec (Python) is the oracle's reading of the documentation; the Lean engine model is not bug-faithful for F9."),
+ "C08": dict(
+   engine="tie-B-engine",
+   technique="Lean 4 proof of macro hygiene (implemented expansion = ideal expansion up to an injective renaming that fixes call-site variables; same "
+             "consequences), of rejection of recursive macros and of termination + compiled correspondence program-with-macros / printed ideal expansion / Lean "
+             "model + in-process rejection tie (tie A)",
+   text="Lean 4 theorems: expand_hygienic_partial / expand_hygienic_sem (any nesting and body position: implemented expansion equals the ideal expansion up to a "
+        "renaming fixing every call-site variable and injective on the ideal's variables, errors coincide, same one-step consequences), tagVar_inj / "
+        "gensyms_disjoint (two invocations share no macro-local name, nothing is captured), recursive_rejected(_msg,_heads) (a reachable cycle is never accepted, "
+        "for any budget), expandBody_total / expandBody_mono (termination; the budget is only a cut-off). Hypotheses (decidable, with non-vacuity examples): "
+        "macro bodies with detached conditions and no agg, at most 100 parameters, call-site aggregations list their bound variables; the first drafts without the "
+        "last two were false as artefacts of the encoding (counterexamples CE.* kept). Tie: generated programs with macros (same macro twice in a rule, call-site "
+        "variable spelled like a macro-local one, nested invocations, head macros) compiled and compared with the printed ideal expansion, the naive oracle and "
+        "the Lean model; 11 recursive-macro shapes through the in-process pipeline. Known findings: F25 (attached conditions escape the renaming, kernel-checked "
+        "witness f25_capture), F26 (expr parameter pasted as raw tokens), FM8 (self-reference through a disjunction not rejected in feasible time), F27 (`?None` "
+        "in a macro body renamed into a binding), each with a coded class predicate and a matched prediction.",
+   design_ref="DESIGN.md §8 C08",
+   note=ENGINE_NOTE + " Token spans (hygiene marks) are modelled by per-invocation tags; F26 (token level), FM8 (time) and F27 are not modelled in Lean."),
  "C11": dict(
    engine="tie-B-engine",
    technique="Lean 4 proof that the least model of the explicit-closure twin restricted to t is the (per-key) transitive closure of the inserted tuples + "
